@@ -52,6 +52,14 @@ def run(ctx, rep):
                 rep.violate(Violation('C04.R3', s.where(), 'cv waiters can be moved to the mutex queue on word %s -> %s: %s [entry %s]' % (C01.bits(K, bad[0]), C01.bits(K, bad[1]),
                                       'nobody holds the mutex, so no release will ever wake them' if not ((bad[0] & W) or (bad[0] & 0xFFFFFFFF) // RL) else 'the word does not tell the holder to take the wake-up path', r.entry),
                                       site='%s/transfer-bits' % s.fn.name))
+        # ... and a waker that gives the mutex spinlock back takes MU_WAITING down only if it knows the mutex queue to be empty: waiters that an
+        # earlier signal transferred are reachable only through that bit (they are no longer on the cv)
+        if r.wc.name == 'mu' and r.entry in ('nsync_cv_signal', 'nsync_cv_broadcast') and any((e & WAITING) and not (n & WAITING) for e, n in r.pairs):
+            ok = r.spin == 1 and r.queue == 0
+            rep.instance('C04.R3', 'MU_WAITING cleared by the waker at %s (spin=%s, queue known empty=%s) [%s]' % (s.where(), r.spin, r.queue == 0, r.entry)); rep.oblig('C04.R3', ok)
+            if not ok:
+                rep.violate(Violation('C04.R3', s.where(), 'the waker clears MU_WAITING although the mutex queue is not known to be empty: a cv waiter that an earlier signal moved to the mutex queue is forgotten - unlocks take the no-waiter fast path and later signals cannot reach it (it is no longer on the cv) [entry %s]' % r.entry,
+                                      site='%s/waiting-cleared-by-waker' % s.fn.name))
         if r.wc.name == 'cv' and r.how == 'store':
             if getattr(r, 'queue_nonempty', False):
                 # inductive use of the invariant (queue non-empty => CV_NON_EMPTY) at the acquisition: a word without the bit means the
